@@ -35,6 +35,20 @@ for _rel, _text in FILES.items():
     os.makedirs(os.path.dirname(_p), exist_ok=True)
     with open(_p, "w") as _f:
         _f.write(_text.format(p=PKG))
+# second tree: the exposed sub-module re-exports a symbol that is defined OUTSIDE it (in a sibling module of the outer package)
+OUTER2 = "fxq%d" % os.getpid()
+PKG2 = OUTER2 + ".api"
+FILES2 = {
+    "__init__.py": "",
+    "util.py": "class Helper(object):\n    \"\"\"\n    A helper.\n\n    :cvar h: the h\n    \"\"\"\n\n    h: int = 1\n\n\n__all__ = ['Helper']\n",
+    "api/__init__.py": "from {o}.util import Helper\nfrom {o}.api.local import Local\n\n__all__ = ['Helper', 'Local']\n",
+    "api/local.py": "class Local(object):\n    \"\"\"\n    A local.\n\n    :cvar v: the v\n    \"\"\"\n\n    v: str = 'v'\n\n\n__all__ = ['Local']\n",
+}
+for _rel, _text in FILES2.items():
+    _p = os.path.join(_SRC, OUTER2, _rel)
+    os.makedirs(os.path.dirname(_p), exist_ok=True)
+    with open(_p, "w") as _f:
+        _f.write(_text.format(o=OUTER2))
 sys.path.insert(0, _SRC)
 _COUNTER = [0]
 EMITS = ("class", "function", "argparse", "sqlalchemy", "sqlalchemy_table", "json_schema", "pydantic")
@@ -104,7 +118,7 @@ class FsMonitor:
         return False
 
 
-def run_exmod(emit, dry_run, recursive, no_word_wrap, blacklist_sub, sql_sub, preexisting, bl_root=False, wl=0):
+def run_exmod(emit, dry_run, recursive, no_word_wrap, blacklist_sub, sql_sub, preexisting, bl_root=False, wl=0, tree=0, installed=False, named=False):
     import contextlib
     import io
 
@@ -112,7 +126,10 @@ def run_exmod(emit, dry_run, recursive, no_word_wrap, blacklist_sub, sql_sub, pr
     import cdd.compound.exmod_utils as exu
 
     _COUNTER[0] += 1  # not tempfile.mkdtemp: its random names are modelled as nondeterminism by the engine and fork paths
-    out = os.path.join(_ROOT, "out_%d" % _COUNTER[0])
+    out = os.path.join(_ROOT, "work_%d" % _COUNTER[0], "gold" if named else "out") if tree else os.path.join(_ROOT, "out_%d" % _COUNTER[0])  # named: the output directory IS the target module ('gold')
+    PKG = PKG2 if tree else globals()["PKG"]
+    if tree:
+        os.makedirs(os.path.dirname(out))
     if preexisting:
         os.mkdir(out)
     out_real = os.path.realpath(out)
@@ -122,6 +139,10 @@ def run_exmod(emit, dry_run, recursive, no_word_wrap, blacklist_sub, sql_sub, pr
     exu.EXMOD_OUT_STREAM = stream
     try:
         with FsMonitor() as mon, contextlib.redirect_stdout(io.StringIO()), contextlib.redirect_stderr(io.StringIO()):
+            if installed:  # environment: the analysed package lives under the interpreter's library directory (an installed distribution)
+                import cdd.shared.pkg_utils as pk
+
+                mon._set(pk.__dict__, "get_python_lib", lambda prefix="", *a, **kw: _SRC)
             try:
                 ex.exmod(emit_name=emit, module=PKG, blacklist=(["sub"] if blacklist_sub else []) + ([PKG] if bl_root else []),
                          whitelist=([PKG] if wl == 1 else (["other.mod"] if wl == 2 else [])), output_directory=out,
@@ -133,7 +154,7 @@ def run_exmod(emit, dry_run, recursive, no_word_wrap, blacklist_sub, sql_sub, pr
         log = list(mon.log)
     finally:
         exu.EXMOD_OUT_STREAM = saved_stream
-        shutil.rmtree(out, ignore_errors=True)
+        shutil.rmtree(os.path.dirname(out) if tree else out, ignore_errors=True)
     if dry_run:
         if log:
             return "dry run reached a file-system mutator: %s %s" % (log[0][0], log[0][1].replace(out_real, "<out>"))
@@ -230,3 +251,21 @@ for _e in ("class", "function", "sqlalchemy_table"):
                                   "bl_root": BOOL, "wl": R(0, 2)}, tier="quick" if _e == "class" else "thorough", T=1500, tpath=600, funcs=FUNCS,
        bound="REAL run, emit kind %s: the exposed module itself in the blacklist or not, whitelist empty / naming it / naming another module, recursive on/off "
              "(solver-enumerated): a blacklisted or non-whitelisted module produces no output, also when it is in both lists" % _e)(_mk(_e))
+
+
+# P4: second tree - the exposed sub-module re-exports a symbol defined OUTSIDE it; installed or not; output directory named like the target module or not ------
+def _mk2(emit):
+    def body(dry_run, recursive, installed, named, preexisting):
+        return run_exmod(emit, dry_run, recursive, 0, False, False, preexisting, tree=1, installed=installed, named=named)
+
+    body.__name__ = "exmod_reexport_" + emit
+    return body
+
+
+for _e in ("class", "function", "sqlalchemy"):
+    ob("C20", "P4.reexport.%s" % _e, {"dry_run": BOOL, "recursive": BOOL, "installed": BOOL, "named": BOOL, "preexisting": BOOL}, tier="quick" if _e == "class" else "thorough",
+       T=2400, tpath=600, funcs=FUNCS + ["cdd.shared.pkg_utils.relative_filename"],
+       assumes=["environment stub (solver boolean `installed`): cdd.shared.pkg_utils.get_python_lib answers the scratch source root, i.e. the analysed package is an installed distribution"],
+       bound="second fixture package: the exposed sub-module <pkg>.api re-exports through __all__ a class defined in the sibling module <pkg>.util and one of its own; emit kind %s; "
+             "dry run or real, recursive, package installed under the interpreter's lib directory or not, output directory named like the target module ('gold') or not, pre-existing or not "
+             "(all solver booleans): a dry run reaches no mutator, a real run touches only paths under the output directory" % _e)(_mk2(_e))
